@@ -295,6 +295,8 @@ func g12SkeletonFn(f *File, fd *ast.FuncDecl, body *ast.BlockStmt) []string {
 				}
 			}
 			out = append(out, "end")
+		case *ast.BranchStmt:
+			out = append(out, n.Tok.String()) // break / continue / goto / fallthrough leave a loop or a case early
 		default:
 			// other statements (inc/dec, labels, ...) are not part of the skeleton
 		}
